@@ -3,11 +3,13 @@
    (C01, C02); the shape logged after every mutation must satisfy TreeShape and hold exactly the
    map's keys; Get/Contains must stay within the comparison bound (C03). *)
 EXTENDS SortedMap, TreeShape
-VARIABLE l
+CONSTANT CheckDrift     \* TRUE: also re-execute every Put/Delete on the BTreeOps model (fan-out 16) and compare node by node
+VARIABLES l, btv
+BT == INSTANCE BTreeOps WITH MaxKVs <- 15
 Trace == ndJsonDeserialize("trace.ndjson")
 Ev == Trace[l]
-tvars == <<mv, reps, its, op, l>>
-TInit == PInit /\ op = 0 /\ l = 1 /\ TLCSet(1, 0)
+tvars == <<mv, reps, its, op, l, btv>>
+TInit == PInit /\ op = 0 /\ l = 1 /\ btv = BT!EmptyNode /\ TLCSet(1, 0)
 A(i) == Ev.args[i]
 Reset == Ev.op = "Reset" /\ mv' = [c \in Classes |-> Absent] /\ reps' = [c \in Classes |-> {}] /\ its' = [i \in Iters |-> NoIt]
 Call ==
@@ -30,8 +32,16 @@ CmpOK == "cmps" \in DOMAIN Ev =>
            /\ Ev.cmps <= Ev.cmp_per_level * (IF Ev.depth = 0 THEN 1 ELSE Ev.depth)
            /\ \A i \in 1..Len(Ev.cmplv) : Ev.cmplv[i] <= Ev.cmp_per_level        \* per level (calls attributed through the logged shape)
 StructOK == "shape" \in DOMAIN Ev => ShapeOK(Ev.shape) /\ KeysOK(Ev.shape)
-TNext == /\ l <= Len(Trace) /\ l' = l + 1 /\ op' = op
-         /\ (Reset \/ (Call /\ StructOK /\ CmpOK))
+\* the model tree follows the recorded mutations; where a shape was logged the two must agree node by node
+BtStep == btv' = (IF ~CheckDrift THEN btv
+                  ELSE IF Ev.op = "Reset" THEN BT!EmptyNode
+                  ELSE IF Ev.op = "Put" THEN BT!PutT(btv, A(1), A(2))
+                  ELSE IF Ev.op = "Delete" THEN BT!DeleteT(btv, A(1))
+                  ELSE btv)
+ShapeKeys(S) == [i \in 1..Len(S.nodes) |-> S.nodes[i].keys]
+DriftOK == (CheckDrift /\ "shape" \in DOMAIN Ev) => BT!PreT(btv') = ShapeKeys(Ev.shape)
+TNext == /\ l <= Len(Trace) /\ l' = l + 1 /\ op' = op /\ BtStep
+         /\ (Reset \/ (Call /\ (StructOK = TRUE) /\ (CmpOK = TRUE) /\ (DriftOK = TRUE)))
 TSpec == TInit /\ [][TNext]_tvars
 HWM == TLCSet(1, IF TLCGet(1) < l THEN l ELSE TLCGet(1))
 Accepted == PrintT(<<"HWM", TLCGet(1)>>) /\ TLCGet(1) = Len(Trace) + 1
